@@ -302,6 +302,66 @@ eff_harness! { #[kani::unwind(7)] fn g_effects_backlog_at_stop_witness() { effec
 eff_harness! { #[kani::unwind(7)] fn g_effects_backlog_at_stop_ctx_task() { effects_after_pool_taken(E_TASK, false); } }
 eff_harness! { #[kani::unwind(7)] fn g_effects_backlog_at_stop_ctx_thunk() { effects_after_pool_taken(E_THUNK, false); } }
 
+// -----------------------------------------------------------------------------------------
+// C13: the reducer loop runs WHILE stop() is inside the pool join (the situation a real
+// stop() is in whenever a backlog exists).  If stop() still holds a lock the loop needs
+// (e.g. the pool lock, needed to submit effects), nobody can make progress.
+// -----------------------------------------------------------------------------------------
+fn join_yield(kind: u8, obj: usize) {
+    if kind == crossbeam::hooks::JOIN && rt::at_placement(kind, obj) {
+        unsafe {
+            rt::IN_UNIT = true;
+            rt::UNIT_IS_AWAITED = true;
+        }
+        rt::run_loop(obj);
+        unsafe {
+            rt::UNIT_IS_AWAITED = false;
+            rt::IN_UNIT = false;
+        }
+    }
+}
+fn join_runs_loop(kind: u8) {
+    let (store, acts) = eff_setup([kind, E_NONE], 1, 4);
+    crossbeam::hooks::set_native(Some(join_yield), Some(eff_block));
+    rt::arm(crossbeam::hooks::JOIN, 0, 0);
+    store.stop();
+    unsafe {
+        STOP_CALLED = true;
+        rt::PLACE_ARMED = false;
+    }
+    rt::run_loop(0);
+    rt::run_pending(4);
+    let r = unsafe { PH[0][PH_REDUCE] };
+    chk!(13, r.n == 1 && r.act == acts[0], "stop() completes because the backlog was processed while it was joining");
+    chk!(4, r.n == 1 && unsafe { PH[0][PH_EFFECT].n } == 1, "the accepted action is completely processed before stop() returns");
+    match rusty_pool::ghost::loop_task(0) {
+        Some(t) => chk!(13, rusty_pool::ghost::task(t).state == rusty_pool::ST_DONE, "the reducer loop terminated"),
+        None => panic!("VERIF-MODEL: no reducer loop task recognised"),
+    }
+    unsafe {
+        core::ptr::write(&mut G_STORE, None);
+    }
+    core::mem::forget(store);
+    finish!(4, 13);
+}
+macro_rules! join_harness {
+    ($($name:ident = $kind:expr;)+) => { $(
+        harness! {
+            #[kani::stub(crate::store_impl::StoreImpl::do_reduce, crate::verif_kani::g_effects::sum_reduce_eff)]
+            #[kani::stub(crate::store_impl::StoreImpl::do_notify, crate::verif_kani::g_glue::sum_notify)]
+            #[kani::stub(crossbeam::hooks::block, eff_block)]
+            #[kani::stub(crossbeam::hooks::yield_point, join_yield)]
+            #[kani::unwind(7)]
+            fn $name() { join_runs_loop($kind); }
+        }
+    )+ };
+}
+join_harness! {
+    g_join_runs_loop_task = E_TASK;
+    g_join_runs_loop_thunk = E_THUNK;
+    g_join_runs_loop_none = E_NONE;
+}
+
 /// vacuity twin
 eff_harness! { #[kani::unwind(7)] fn twin_g_effects() {
     let (store, _acts) = eff_setup([E_TASK, E_NONE], 1, 4);
